@@ -371,6 +371,22 @@ fn mapping_hash_field(a: &mut Asm, r: &mut Rng, force_field: bool) {
         } else {
             a.push_u(1 + r.below(3) as u128).op(op::ADD);
         }
+        // ... and a field of a struct inside that struct: one or two more
+        // constants added (only the first is folded into the projection);
+        // pairs that only overflow together now and then
+        if !force_field && r.chance(1, 3) {
+            let n = if r.chance(1, 4) { 2 } else { 1 };
+            for _ in 0..n {
+                match r.below(6) {
+                    0 => a.push(U256::ONE << 63),
+                    1 => a.push(U256::from(u64::MAX) - U256::from(r.below(3))),
+                    2 => a.push(U256::MAX - U256::from(r.below(3))),
+                    3 => a.push(boundary_constant(r)),
+                    _ => a.push_u(1 + r.below(3) as u128),
+                };
+                a.op(op::ADD);
+            }
+        }
     }
 }
 
@@ -755,20 +771,41 @@ fn storage_fragment(a: &mut Asm, r: &mut Rng, s: U256, slots: &[U256]) {
             let w = *r.pick(&[8u32, 16, 32, 64, 128, 160]);
             let k = *r.pick(&[0u32, 8, 16, 32, 64, 96, 160]);
             let k = if k + w > 256 { 0 } else { k };
-            a.push(s).op(op::SLOAD);
-            a.push(!(mask(w) << k)).op(op::AND);
+            // One time in four the field is stored on its own.
+            let alone = r.chance(1, 4);
+            if !alone {
+                a.push(s).op(op::SLOAD);
+                a.push(!(mask(w) << k)).op(op::AND);
+            }
             typed_value(a, r);
-            a.push(mask(w)).op(op::AND);
+            // The mask usually sits at bit 0; now and then the field is cut
+            // out higher up and moved from there (possibly out of the word).
+            let b = if r.chance(1, 5) { *r.pick(&[8u32, 96, 104, 200, 255]) } else { 0 };
+            let b = if b + w > 256 { 256 - w } else { b };
+            a.push(mask(w) << b).op(op::AND);
             if k > 0 {
-                if r.chance(1, 2) {
-                    // multiply by a power of two instead of shifting (the
-                    // form the library lifts into a packed encoding)
-                    a.push(U256::ONE << k).op(op::MUL);
-                } else {
-                    a.push_u(u128::from(k)).op(op::SHL);
+                // The move is made in one step, or in two or three (scaling a
+                // field twice is what hand-written assembly and older
+                // compilers do); each step multiplies by a power of two (the
+                // form the library lifts into a packed encoding) or shifts.
+                let steps = *r.pick(&[1u32, 1, 1, 2, 2, 3]);
+                let mut left = k;
+                for i in 0..steps {
+                    let part = if i + 1 == steps { left } else { (left / 2).max(1).min(left) };
+                    left -= part;
+                    if part == 0 {
+                        continue;
+                    }
+                    if r.chance(2, 3) {
+                        a.push(U256::ONE << part).op(op::MUL);
+                    } else {
+                        a.push_u(u128::from(part)).op(op::SHL);
+                    }
                 }
             }
-            a.op(op::OR);
+            if !alone {
+                a.op(op::OR);
+            }
             a.push(s).op(op::SSTORE);
         }
         10 => {
@@ -1034,7 +1071,53 @@ pub fn gen_cfg(r: &mut Rng) -> Vec<u8> {
 // limit, culling, memoised sizes, deep trees)
 // ---------------------------------------------------------------------------
 
+/// W-nesting: types nested dozens of levels deep, each level mentioning the
+/// next one once or twice: slot i holds a mapping whose key and value are both
+/// "whatever slot i+1 holds" (or a mapping to it, or a dynamic array of it).
+/// Whatever walks the resolved types has to stay linear in the depth.
+pub fn gen_type_nesting(r: &mut Rng) -> Vec<u8> {
+    let mut a = Asm::new();
+    let cap = if r.chance(1, 2) { 30 } else { 70 };
+    let depth = 6 + r.usize_below(cap);
+    let unit = r.below(4);
+    for i in 0..depth {
+        let shape = if r.chance(1, 6) { r.below(4) } else { unit };
+        // v = sload(i + 1)
+        a.push_u(i as u128 + 1).op(op::SLOAD);
+        match shape {
+            0 | 1 => {
+                // sstore(keccak(v . i), v): mapping(T => T)
+                a.dup(1).op(op::PUSH0).op(op::MSTORE);
+                a.push_u(i as u128).push_u(0x20).op(op::MSTORE);
+                a.push_u(0x40).op(op::PUSH0).op(op::SHA3);
+                a.op(op::SSTORE);
+            }
+            2 => {
+                // sstore(keccak(caller . i), v): mapping(address => T)
+                a.op(op::CALLER).op(op::PUSH0).op(op::MSTORE);
+                a.push_u(i as u128).push_u(0x20).op(op::MSTORE);
+                a.push_u(0x40).op(op::PUSH0).op(op::SHA3);
+                a.op(op::SSTORE);
+            }
+            _ => {
+                // sstore(keccak(i) + calldataload(4), v): T[]
+                a.push_u(i as u128).op(op::PUSH0).op(op::MSTORE);
+                a.push_u(0x20).op(op::PUSH0).op(op::SHA3);
+                a.push_u(4).op(op::CALLDATALOAD).op(op::ADD);
+                a.op(op::SSTORE);
+            }
+        }
+    }
+    // the innermost level is an ordinary typed slot
+    a.op(op::CALLER).push_u(depth as u128).op(op::SSTORE);
+    a.op(op::STOP);
+    a.finish()
+}
+
 pub fn gen_growth(r: &mut Rng) -> Vec<u8> {
+    if r.chance(1, 7) {
+        return gen_type_nesting(r);
+    }
     let mut a = Asm::new();
     match r.below(4) {
         0 => a.op(op::CALLER),
